@@ -24,6 +24,7 @@ SEPARATORS = set("&=?;")
 
 
 def check(ctx):
+    percent_coding_agrees(ctx)
     ctx.rule("T7-quote", "no quote/quote_plus with a structural separator marked safe; values quoted before joining")
     ctx.rule("T7-query", "updateQargsQuery / Requester.build encode per value; parseQuery/unquoteQuery decode per value")
     ctx.rule("T6-lodict", "headers are lodicts on both sides; HTTP_* environ keys derived case-insensitively")
@@ -227,3 +228,44 @@ def group_condition_from(view, nodes, group):
             best = d
     start = [best.id] if best is not None else [cfg.entry.id]
     return ("or", [path_condition(view, n, start=start, by_value=False) for n in nodes])
+
+
+_PCT_FUNCS = ("quote", "unquote", "quote_plus", "unquote_plus", "parse_qs", "parse_qsl", "urlencode")
+
+
+def _pct_codec(x):
+    """(function name, encoding named) for a percent-coding call that names a codec, else None"""
+    if isinstance(x, ast.Call) and (dotted(x.func) or "").split(".")[-1] in _PCT_FUNCS:
+        for k in x.keywords:
+            if k.arg in ("encoding", "errors"):
+                return (dotted(x.func), src(k.value))
+        name = dotted(x.func).split(".")[-1]
+        if name in ("unquote", "unquote_plus") and len(x.args) > 1:
+            return (dotted(x.func), src(x.args[1]))
+        if name in ("quote", "quote_plus") and len(x.args) > 2:
+            return (dotted(x.func), src(x.args[2]))
+    return None
+
+
+def percent_coding_agrees(ctx):
+    """client and server percent-code paths, query and form values with urllib's default codec (utf-8) on both sides; a call
+    that names another codec on one side only turns every non-ASCII character into mojibake on the way through"""
+    ctx.rule("T7-codec", "no quote/unquote/quote_plus/unquote_plus/parse_qs call in ioflo.aio.http names an encoding other than utf-8")
+    probe = ast.parse("a = unquote(p, encoding='iso-8859-1')\nb = quote(p, '/', 'latin-1')\nc = unquote(p)")
+    if sum(1 for x in ast.walk(probe) if _pct_codec(x)) != 2:
+        raise AnchorError("T7-codec matcher no longer recognises its positive examples")
+    k = 0
+    for modn in ("ioflo.aio.http.clienting", "ioflo.aio.http.serving", "ioflo.aio.http.httping"):
+        m = ctx.repo.modules.get(modn)
+        if m is None:
+            raise AnchorError("%s not found" % modn)
+        ctx.use(m.tree)
+        for x in ast.walk(m.tree):
+            if isinstance(x, ast.Call) and (dotted(x.func) or "").split(".")[-1] in _PCT_FUNCS:
+                k += 1
+                c = _pct_codec(x)
+                ctx.check(c is None or c[1].strip("'\"").lower().replace("_", "-") in ("utf-8", "utf8", "strict"), "T7-codec", x,
+                          "%s uses the default codec" % src(x)[:60],
+                          "the peer percent-codes with utf-8: a path or value decoded as latin-1 arrives as mojibake "
+                          "(`/héllo` -> `/hÃ©llo`) although every byte was transported intact")
+    ctx.floor("T7-codec:calls", k, 6)
